@@ -3,6 +3,7 @@ use crate::parser::error::Error;
 use proc_macro2::Span;
 use proc_macro_error::{abort, emit_error};
 use std::collections::HashMap;
+use syn::ext::IdentExt;
 use syn::spanned::Spanned;
 use syn::{Data, Expr, ExprLit, ExprUnary, Fields, Ident, Lit, Meta, MetaNameValue, UnOp};
 
@@ -21,7 +22,7 @@ pub(crate) fn parse_values(
             if !matches!(v.fields, Fields::Unit) {
                 emit_error!(span, Error::OnlyUnitField);
             }
-            let mut name = v.ident.to_string();
+            let mut name = v.ident.unraw().to_string();
             for a in v.attrs {
                 if a.path().is_ident("enum_tools") {
                     if let Meta::List(meta_list) = &a.meta {
